@@ -91,37 +91,50 @@ def main():
             if lasts != [last]:
                 b.fail("is_last_is_max", t, "is_last() is not exactly the largest denoted line", lasts, [last])
     b.sample({"scan part": parts[min(40, len(parts) - 1)][0], "denotation": sorted(l for l in den(parts[min(40, len(parts) - 1)][1], hi) if l < hi + 4)})
-    # ---- the run half: real CsvPath over files with blanks
+    # ---- the run half: real CsvPath over files with blanks (one forked worker per file shape)
     run_parts = parts if b.thorough() else parts[::12]
+    items = []
     for n in range(1, N + 1):
         blank_sets = [()] + [(i,) for i in range(n)]
         if b.thorough():
             blank_sets = [c for k in range(0, min(n, 3) + 1) for c in itertools.combinations(range(n), k)]
         for blanks in blank_sets:
-            lines = ["" if i in blanks else f"r{i},v" for i in range(n)]
-            fn = b.write_lines(f"f_{n}_{'_'.join(map(str, blanks))}.csv", lines)
-            for t, p in run_parts:
-                key = f"run:{t} n={n} blanks={list(blanks)}"
-                b.case(key)
-                D = den(p, hi)
-                want = [i for i in range(n) if i in D and i not in blanks]
-                try:
-                    with b.quiet():
-                        path = CsvPath()
-                        path.parse(f"${fn}[{t}][yes() push(\"seen\", line_number())]")
-                        got_lines = path.collect()
-                except Exception as e:
-                    b.fail("run_offers_exactly", key, f"raised {type(e).__name__}: {e}")
-                    continue
-                got = [int(r[0][1:]) for r in got_lines]
-                if got != want:
-                    b.fail("run_returns_exactly_the_denoted_nonblank_lines", key, "returned lines", got, want)
-                if path.scan_count != len(want):
-                    b.fail("scan_count_is_lines_offered", key, "scan_count", path.scan_count, len(want))
-                seen = path.variables.get("seen", [])
-                if list(seen) != want:
-                    b.fail("matched_exactly_the_offered_lines", key, "lines on which the match part ran", list(seen), want)
-    b.exhaustive = b.thorough()
+            items.append((n, blanks))
+
+    def work(b, item):
+        with b.fresh_dir():
+            work1(b, item)
+
+    def work1(b, item):
+        n, blanks = item
+        lines = ["" if i in blanks else f"r{i},v" for i in range(n)]
+        fn = b.write_lines(f"f_{n}_{'_'.join(map(str, blanks))}.csv", lines)
+        # thorough: every scan part for files of up to 4 records, a 1-in-6 slice (offset by the file shape) for longer files
+        these = run_parts if (not b.thorough() or n <= 4) else run_parts[(n + len(blanks)) % 6::6]
+        for t, p in these:
+            key = f"run:{t} n={n} blanks={list(blanks)}"
+            b.case(key)
+            D = den(p, hi)
+            want = [i for i in range(n) if i in D and i not in blanks]
+            try:
+                with b.quiet():
+                    path = CsvPath()
+                    path.parse(f"${fn}[{t}][yes() push(\"seen\", line_number())]")
+                    got_lines = path.collect()
+            except Exception as e:
+                b.fail("run_offers_exactly", key, f"raised {type(e).__name__}: {e}")
+                continue
+            got = [int(r[0][1:]) for r in got_lines]
+            if got != want:
+                b.fail("run_returns_exactly_the_denoted_nonblank_lines", key, "returned lines", got, want)
+            if path.scan_count != len(want):
+                b.fail("scan_count_is_lines_offered", key, "scan_count", path.scan_count, len(want))
+            seen = path.variables.get("seen", [])
+            if list(seen) != want:
+                b.fail("matched_exactly_the_offered_lines", key, "lines on which the match part ran", list(seen), want)
+
+    b.fan_out(work, items)
+    b.exhaustive = False
     b.finish()
 
 
